@@ -354,6 +354,9 @@ type Ctx struct {
 	boundNames []string
 	boundSorts map[string]Sort
 	phDepth  int
+	opaqueApps []opaqueApp
+	opaqueSeen map[string]bool
+	inAutoFrame bool
 	effCache map[string]*effects
 	defs     []Term
 	hintSeen map[string]bool
